@@ -141,34 +141,24 @@ def run(ck, prog):
         ck.ob("R12.2", "server-file", all(x[0] == "call" and x[1].endswith("assign_or_get_file_id") for x in fo),
               "the file id is the one assigned to the document's path",
               msg="Server::set_file_content stores the text under an id not derived from the document's path")
-    # ---- R12.3: the editor's text is in the open-document table before anything re-reads files -----------------
-    # (re-collecting the sources calls FileSystem::read_content for every include it meets and writes the result into
-    # the database: if the walk meets the touched document again, the table must already hold the text just sent)
-    dom = cfg.dominators(sb)
-    stores = []
-    for i, t in sb.calls():
-        c = Body.callee(t) or ""
-        if c in overlay_writers or any(w in cg.reachable([c]) for w in overlay_writers if not c.startswith("std::")):
-            to = set()
-            for a in t["args"][1:]:
-                to |= {x for x in prov.origins(sb, a) if x[0] == "arg" and x[1] == 3}
-            if to:
-                stores.append(i)
-    nread = 0
-    for i, t in sb.calls():
-        c = Body.callee(t) or ""
-        if c.startswith(("std::", "<std::", "core::", "alloc::")) or i in stores:
-            continue
-        if not (read_impls & set(cg.reachable([c]))):
-            continue
-        nread += 1
-        ok = any(s_ in dom[i] for s_ in stores)
-        ck.ob("R12.3", "overlay-before:%s#%d" % (c.rsplit("::", 1)[-1], nread), ok,
-              "the text is recorded in the open-document table before %s re-reads files" % c.rsplit("::", 1)[-1],
-              msg="Server::set_file_content calls %s (which re-reads files through FileSystem::read_content and stores "
-                  "what it reads) before the text the editor just sent is recorded in the open-document table [%s]: a "
-                  "document reached again through an include gets its on-disk or previous text back" % (c, sb.where(i)))
-    ck.floor("R12.3", "calls of Server::set_file_content that re-read files", nread, 1)
+    overlay_before_reread(ck, prog, cg, sb, overlay_writers, read_impls, "R12.3")
+
+    # ---- R12.4: one document, one key ---------------------------------------------------------------------------
+    # the open-document table, the file-id tables and the include resolution all key on FilePath: two spellings of one
+    # path (`/d/./inc.td`, `/d//inc.td`, `/d/inc.td`) must be one key, which is what PathBuf's component-wise Eq / Hash
+    # give; a comparison of the raw strings makes an include written with `./` miss the editor's buffer
+    ck.rule("R12.4", "paths are compared component-wise (FilePath equality and hash are PathBuf's)")
+    for tr, meth, want in (("std::cmp::PartialEq", "eq", "<std::path::PathBuf as std::cmp::PartialEq>::eq"),
+                           ("std::hash::Hash", "hash", "<std::path::PathBuf as std::hash::Hash>::hash")):
+        fb = prog.body("<ide::file_system::FilePath as %s>::%s" % (tr, meth))
+        ck.anchor(fb is not None, "FilePath's %s impl not found" % tr)
+        callees = [Body.callee(t) or "" for _, t in fb.calls()]
+        cmp_calls = [c for c in callees if re.search(r"PartialEq(<[^>]*>)?>::(eq|ne)$|Hash>::hash$|::hash_slice$", c)]
+        ck.ob("R12.4", "filepath-%s" % meth, bool(cmp_calls) and all(c == want for c in cmp_calls),
+              "FilePath::%s delegates to PathBuf::%s" % (meth, meth),
+              msg="FilePath's %s no longer is PathBuf's component-wise %s (it calls %s): differently spelled paths of one "
+                  "file become different keys, so an open document reached through such an include is read from disk and "
+                  "gets a second file id" % (tr.rsplit("::", 1)[-1], meth, sorted(set(cmp_calls)) or "nothing comparable"))
 
     hb = prog.body(HOST_SET)
     ck.anchor(hb is not None, "AnalysisHost::set_file_content not found")
@@ -191,3 +181,60 @@ def field_writers(prog, self_ty, field):
                 if any(x[0] == "arg" and x[2][-1:] == (field,) for x in o):
                     out.append(p)
     return out
+
+
+def overlay_tables(prog, cg):
+    """(read_content implementations of crate lsp, functions on the didOpen/didChange path that write the table those
+    implementations consult first)"""
+    read_impls, writers = set(), set()
+    reach = cg.reachable([SERVER_SET])
+    for imp in prog.impls:
+        if imp.get("trait") != "ide::file_system::FileSystem" or imp["crate"] != "lsp.rlib":
+            continue
+        for it in imp["items"]:
+            if it["name"] != "read_content":
+                continue
+            b = prog.body(it["path"])
+            if b is None:
+                continue
+            read_impls.add(it["path"])
+            for t in brackets.option_tests(b, prog):
+                if not re.search(r"HashMap::<[^>]*>::get$|BTreeMap::<[^>]*>::get$", t["src_callee"] or ""):
+                    continue
+                recv = prov.origins(b, b.term(t["src_bb"])["args"][0])
+                field = next((x[2][-1] for x in recv if x[0] == "arg" and x[2]), None)
+                if field:
+                    writers.update(w for w in field_writers(prog, imp["self"], field) if w in reach)
+    return read_impls, writers
+
+
+def overlay_before_reread(ck, prog, cg, sb, overlay_writers, read_impls, rule):
+    """shared with C09 and C11 (coordinates and diagnostics are computed from the text the include walk leaves behind)"""
+    # ---- R12.3: the editor's text is in the open-document table before anything re-reads files -----------------
+    # (re-collecting the sources calls FileSystem::read_content for every include it meets and writes the result into
+    # the database: if the walk meets the touched document again, the table must already hold the text just sent)
+    dom = cfg.dominators(sb)
+    stores = []
+    for i, t in sb.calls():
+        c = Body.callee(t) or ""
+        if c in overlay_writers or any(w in cg.reachable([c]) for w in overlay_writers if not c.startswith("std::")):
+            to = set()
+            for a in t["args"][1:]:
+                to |= {x for x in prov.origins(sb, a) if x[0] == "arg" and x[1] == 3}
+            if to:
+                stores.append(i)
+    nread = 0
+    for i, t in sb.calls():
+        c = Body.callee(t) or ""
+        if c.startswith(("std::", "<std::", "core::", "alloc::")) or i in stores:
+            continue
+        if not (read_impls & set(cg.reachable([c]))):
+            continue
+        nread += 1
+        ok = any(s_ in dom[i] for s_ in stores)
+        ck.ob(rule, "overlay-before:%s#%d" % (c.rsplit("::", 1)[-1], nread), ok,
+              "the text is recorded in the open-document table before %s re-reads files" % c.rsplit("::", 1)[-1],
+              msg="Server::set_file_content calls %s (which re-reads files through FileSystem::read_content and stores "
+                  "what it reads) before the text the editor just sent is recorded in the open-document table [%s]: a "
+                  "document reached again through an include gets its on-disk or previous text back" % (c, sb.where(i)))
+    ck.floor(rule, "calls of Server::set_file_content that re-read files", nread, 1)
